@@ -105,14 +105,28 @@ func collectDeclDependencies(d Decl) []string {
 		}
 	}
 
+	// Attribute arguments are const-expressions and may name module constants:
+	// @align(N), @size(N), @group(G), @binding(B), @id(I), @location(L), @workgroup_size(W).
+	attrDeps := func(attrs []Attribute) {
+		for _, a := range attrs {
+			for _, arg := range a.Args {
+				collectExprDeps(arg, nil, add)
+			}
+		}
+	}
+
 	switch d := d.(type) {
 	case *StructDecl:
 		for _, m := range d.Members {
 			collectTypeRefs(m.Type, add)
+			attrDeps(m.Attributes)
 		}
 	case *FunctionDecl:
+		attrDeps(d.Attributes)
+		attrDeps(d.ReturnAttrs)
 		for _, p := range d.Params {
 			collectTypeRefs(p.Type, add)
+			attrDeps(p.Attributes)
 		}
 		if d.ReturnType != nil {
 			collectTypeRefs(d.ReturnType, add)
@@ -126,6 +140,7 @@ func collectDeclDependencies(d Decl) []string {
 			collectBlockDeps(d.Body, locals, add)
 		}
 	case *VarDecl:
+		attrDeps(d.Attributes)
 		collectTypeRefs(d.Type, add)
 		if d.Init != nil {
 			collectExprDeps(d.Init, nil, add)
@@ -136,6 +151,7 @@ func collectDeclDependencies(d Decl) []string {
 			collectExprDeps(d.Init, nil, add)
 		}
 	case *OverrideDecl:
+		attrDeps(d.Attributes)
 		collectTypeRefs(d.Type, add)
 		if d.Init != nil {
 			collectExprDeps(d.Init, nil, add)
